@@ -46,15 +46,37 @@ func patternToMatcher(root, pattern string) (matcher, error) {
 	return regexGlob{regex: regex}, nil
 }
 
+// toRegexString translates a glob pattern containing ** into a regular expression. Everything that is not
+// a glob construct stands for itself.
 func toRegexString(pattern string) string {
-	pattern = "^" + pattern + "$"
-	pattern = strings.ReplaceAll(pattern, "+", "\\+")         // escape +
-	pattern = strings.ReplaceAll(pattern, ".", "\\.")         // escape .
-	pattern = strings.ReplaceAll(pattern, "?", ".")           // match ? as any single char
-	pattern = strings.ReplaceAll(pattern, "*", "[^/]*")       // handle single (all) * components
-	pattern = strings.ReplaceAll(pattern, "[^/]*[^/]*", ".*") // handle ** components
-	pattern = strings.ReplaceAll(pattern, "/.*/", "/(.*/)?")  // Allow ** to match zero directories
-	return pattern
+	var b strings.Builder
+	b.WriteByte('^')
+	for i := 0; i < len(pattern); {
+		switch c := pattern[i]; {
+		case strings.HasPrefix(pattern[i:], "**/") && i > 0 && pattern[i-1] == '/':
+			b.WriteString("(.*/)?") // Allow ** to match zero directories
+			i += 3
+		case strings.HasPrefix(pattern[i:], "**"):
+			b.WriteString(".*")
+			i += 2
+		case c == '*':
+			b.WriteString("[^/]*")
+			i++
+		case c == '?':
+			b.WriteString("[^/]") // any single character of a path component
+			i++
+		case c == '[' && strings.IndexByte(pattern[i:], ']') > 0:
+			// a character class, written as filepath.Match has them
+			end := i + strings.IndexByte(pattern[i:], ']') + 1
+			b.WriteString(pattern[i:end])
+			i = end
+		default:
+			b.WriteString(regexp.QuoteMeta(pattern[i : i+1]))
+			i++
+		}
+	}
+	b.WriteByte('$')
+	return b.String()
 }
 
 // IsGlob returns true if the given pattern requires globbing (i.e. contains characters that would be expanded by it)
